@@ -111,6 +111,7 @@ func c02CheckCascade(w *c02World, root int, rm *RootMonitor, fin int) {
 func VerifC02Cascade() {
 	w := c02Setup(zz.Param("WORKERS", 1), zz.Param("DEPTH", 1), zz.Param("MAXEVS", 4))
 	if p := zz.Param("P", 0); p > 0 {
+		zz.ReportHeapRaces() // unordered conflicting accesses in engine code are findings (confirmed under the race detector)
 		zz.Schedule(p)
 	}
 	w.p.Start()
